@@ -224,6 +224,18 @@ class IndexSpaces:
 
     def bind_loop(self, target, it):
         if isinstance(it, ast.Call) and norm(it.func) == "enumerate" and it.args and isinstance(target, ast.Tuple) \
+                and len(target.elts) == 2 and isinstance(it.args[0], ast.Call) and norm(it.args[0].func) == "zip":
+            # enumerate(zip(A, B, ...)): the counter is a position of the (parallel) sequences
+            spaces = [self.ev_iter(a_) for a_ in it.args[0].args]
+            sp_ = next((r_[0] for r_ in spaces if r_ is not None and r_[0] is not None), None)
+            if isinstance(target.elts[0], ast.Name):
+                if sp_ is not None:
+                    self.env[target.elts[0].id] = _pos(sp_)
+                else:
+                    self.env.pop(target.elts[0].id, None)
+            self.bind_loop(target.elts[1], it.args[0])
+            return
+        if isinstance(it, ast.Call) and norm(it.func) == "enumerate" and it.args and isinstance(target, ast.Tuple) \
                 and len(target.elts) == 2:
             r = self.ev_iter(it.args[0])
             if r is not None and isinstance(target.elts[0], ast.Name):
